@@ -400,6 +400,49 @@ def changing_source_order(ctx, n):
         ctx.nontrivial("changing-source:" + c["id"])
 
 
+def undecodable_names(ctx, n):
+    """Directory entries whose names are not UTF-8 (they cannot be named by an archive path): whatever the walk does with them,
+    it emits strictly increasing paths, and so do the written index and the listing."""
+    cases = []
+    for t in range(n):
+        stems = ctx.rng.sample([b"caf", b"na", b"r\xc3\xa9sum", b"x"], 2)
+        raw = []
+        for st in stems:
+            for tail in ctx.rng.sample([b"\xe9", b"\xe8", b"\xff", b"\xc3", b"\xe9s", b"\x80x"], 3):
+                raw.append((st + tail).hex())
+        tree = {"k": "d", "mode": 0o755, "mtime": 10**18, "c": {
+            "menu": {"k": "d", "mode": 0o755, "mtime": 10**18, "c": {"plain": {"k": "f", "data": "70", "mode": 0o644, "mtime": 10**18 + 1}}},
+            "z": {"k": "f", "data": "7a", "mode": 0o644, "mtime": 10**18 + 2}}}
+        cases.append({"id": f"un{t}", "steps": [{"op": "init"}, {"op": "mktree", "path": "src", "tree": tree},
+                                                 {"op": "mkraw", "dir": "src/menu", "names_hex": raw}, {"op": "mkraw", "dir": "src", "names_hex": raw[:2]},
+                                                 {"op": "walk"}, {"op": "backup", "opts": {"meph": ctx.rng.choice([2, 100000])}}, {"op": "list", "band": 0}]})
+    res = ctx.cvh_run(cases)
+    for c in cases:
+        r = res.get(c["id"])
+        ctx.count()
+        small = {"steps": c["steps"]}
+        if r is None:
+            ctx.oracle_fail("walk/harness-died", "harness died or hung on a tree with undecodable names", small)
+            continue
+        pan = [x.get("panic") for x in r if isinstance(x, dict) and x.get("panic")]
+        if pan:
+            ctx.oracle_fail("walk/failed", f"walk or backup of a tree with names that are not UTF-8 crashed: {pan[0][:200]}", small)
+            continue
+        bad = None
+        for what, one in (("source walk", r[4]), ("listing", r[6])):
+            if one.get("result") == "ok":
+                b2 = strictly_increasing([e["apath"] for e in one["value"]])
+                if b2:
+                    bad = (what, b2)
+                    break
+        if bad:
+            ctx.oracle_fail("walk/order" if bad[0] == "source walk" else "listing/order",
+                            f"{bad[0]} of a tree with names that are not UTF-8 is not strictly increasing at {bad[1]}", small)
+            continue
+        ctx.dist("trees_with_undecodable_names")
+        ctx.nontrivial("undecodable:" + c["id"])
+
+
 def run(ctx):
     quick = ctx.tier == "quick"
     alphabet = sub_alphabet(ctx, 4 if quick else 5, 2)
@@ -426,6 +469,7 @@ def run(ctx):
     walk_and_index_order(ctx, 40 if quick else 600)
     stitched_listing_order(ctx, 40 if quick else 600)
     changing_source_order(ctx, 12 if quick else 200)
+    undecodable_names(ctx, 4 if quick else 40)
     ctx.assumptions += ["strings are compared as UTF-8 byte sequences (Rust str::cmp)",
                         "walk/listing/hunk order is checked on generated trees; the walk theorem is in TreeP.v"]
 
